@@ -699,7 +699,7 @@ def catalog():
                        {"k": "struct", "name": "pair", "fields": [{"ty": "expr", "name": "l", "arr": None, "opt": True}, {"ty": "expr", "name": "r", "arr": ["var", "1"], "opt": False}]}])
     # every ordered pair of field forms in one struct (a decision taken once per struct instead of once per field shows here),
     # each struct also used as the element of a counted array (where wire_size() steers the decoding)
-    pforms = [("ofix", "opaque", ["fixed", "3"]), ("ofixc", "opaque", ["fixed", "K"]), ("ovar", "opaque", ["var", ""]), ("ovarn", "opaque", ["var", "5"]),
+    pforms = [("ofix", "opaque", ["fixed", "3"]), ("ofix5", "opaque", ["fixed", "5"]), ("ofixc", "opaque", ["fixed", "K"]), ("ovar", "opaque", ["var", ""]), ("ovarn", "opaque", ["var", "5"]),
               ("ovarc", "opaque", ["var", "K"]), ("svar", "string", ["var", ""]), ("svarn", "string", ["var", "4"]), ("svarc", "string", ["var", "K"]),
               ("int", "int", None), ("inner", "inner", None), ("ifix", "inner", ["fixed", "2"]), ("ivar", "inner", ["var", ""]), ("hyp", "hyper", None)]
     for half in range(2):
